@@ -1,5 +1,9 @@
-"""Per-property configuration of the checks: Lean module holding the property theorems, the
-obligations (theorem names), the harness components that tie the model to the code."""
+"""Per-property configuration of the checks, merged from tools/parts/*.py (one part per model
+component): Lean module holding the property theorems, the obligations (theorem names), the
+harness components that tie the model to the code."""
+import glob, importlib.util, os
+
+HERE = os.path.dirname(os.path.abspath(__file__))
 
 COMMON_TRUST = [
     "Lean 4.33.0 kernel (thorough tier: also leanchecker on the property module)",
@@ -9,21 +13,56 @@ COMMON_TRUST = [
     "the theorems are about the Lean Impl models; the C code is tied to them by sampled differential execution",
 ]
 
-PROPS = {}
+# what each claimed property's check delivers, in my own words (kept current as the model grows)
+TEXT = {
+    "C14": dict(
+        text="(under construction) polynomial constant proved equal to the IEEE one; carquet_crc32/_update tied to "
+             "the bit-serial Spec by exhaustive-length correspondence",
+        level_note="Lean kernel; translator; harness; zlib as second oracle",
+        technique="Lean 4 proof over bit-serial CRC spec + table model, correspondence to C by differential execution"),
+}
 NOT_APPLICABLE = {}
 HOOK_COMMITS = []
 
-PROPS["C14"] = dict(
-    module="Carquet.Properties.C14",
-    obligations=["Carquet.Properties.C14.C14_poly_is_ieee"],
-    components=["crc"],
-    level="proof",
-    rule="all lengths 0..257 (thorough 0..1025) x alignment x fill kind; all splits of strings <= 24 bytes + random "
-         "splits; distinct = distinct (op, input bytes); non-trivial = every case (the empty input is tagged triv)",
-    trusted_base=COMMON_TRUST + ["zlib crc32() as C-side oracle"],
-    assumptions=["little-endian host (memcpy loads)", "ARM hardware CRC path not compiled on this host"],
-    fidelity={"Impl.Crc32": "exact"},
-    text="(under construction) polynomial constant proved equal to the IEEE one; carquet_crc32/_update tied to the bit-serial Spec by exhaustive-length correspondence",
-    level_note="Lean kernel; translator; harness; zlib as second oracle",
-    technique="Lean 4 proof over bit-serial CRC spec + table model, correspondence to C by differential execution",
-)
+
+def load_parts():
+    parts = []
+    for p in sorted(glob.glob(os.path.join(HERE, "parts", "*.py"))):
+        spec = importlib.util.spec_from_file_location("part_" + os.path.basename(p)[:-3], p)
+        m = importlib.util.module_from_spec(spec)
+        spec.loader.exec_module(m)
+        parts.append((os.path.basename(p)[:-3], m.PART))
+    return parts
+
+
+def merged():
+    props = {}
+    for name, part in load_parts():
+        for pid, d in part.items():
+            c = props.setdefault(pid, dict(module=f"Carquet.Properties.{pid}", imports=[], obligations=[],
+                                           components=[], fidelity={}, rules=[], assumptions=[],
+                                           trusted_base=list(COMMON_TRUST), level="proof"))
+            for k in ("imports", "obligations", "components", "assumptions"):
+                for x in d.get(k, []):
+                    if x not in c[k]:
+                        c[k].append(x)
+            for x in d.get("trusted_base", []):
+                if x not in c["trusted_base"]:
+                    c["trusted_base"].append(x)
+            c["fidelity"].update(d.get("fidelity", {}))
+            if d.get("rule"):
+                c["rules"].append(d["rule"])
+            for k in ("variant", "timeout"):
+                if k in d:
+                    c[k] = d[k]
+    for pid, c in props.items():
+        c["rule"] = " || ".join(c["rules"])
+        t = TEXT.get(pid, {})
+        c["text"] = t.get("text", "(under construction)")
+        c["level_note"] = t.get("level_note", "Lean kernel; translator; correspondence harness")
+        c["technique"] = t.get("technique", "Lean 4 proof over executable model + differential correspondence to the C code")
+    # only properties with a TEXT entry are claimed in MANIFEST
+    return {pid: c for pid, c in props.items() if pid in TEXT}
+
+
+PROPS = merged()
